@@ -64,6 +64,9 @@ def run_ops(ctx: Ctx, what: str) -> None:
                     inferred = W.infer_partial_op(o, objs[-1][1])
                     if inferred is not None:
                         objs.append(("inferred by the builder", inferred))
+                    via = W.call_through_builders(o, objs[0][1])
+                    if via is not None:
+                        objs.append(("callee made by define_function, then call / load_function", via))
                 if what == "typing" and o["op"] == "Conditional":
                     _cases_of_builder(ctx, sig, ln, o)
                 if what == "codec":
@@ -152,6 +155,11 @@ def _typing(ctx, sig, ln, enc, obj, Hugr, Node, InPort, OutPort) -> bool:
         got = [[W.proj_type(t) for t in s.input], [W.proj_type(t) for t in s.output]]
         if not W.same_t(got, W.from_tla(ln["inner"])):
             return bad("inner_signature", ln["inner"], got, "HugrWire!InnerSig")
+    if enc["op"] == "DFG":          # "a DFG's outer signature equals its body's": the extension requirements included
+        want = set(enc["signature"].get("runtime_reqs", []))
+        got = [sorted(obj.outer_signature().runtime_reqs), sorted(obj.inner_signature().runtime_reqs)]
+        if set(got[0]) != want or set(got[1]) != want:
+            return bad("requirements of the outer / inner signature", sorted(want), got, "DfSig(DFG) = InnerSig(DFG) = signature")
     if enc["op"] == "Conditional":
         got = [[W.proj_type(t) for t in obj.nth_inputs(i)] for i in range(len(ln["case_inputs"]))]
         if not W.same_t(got, W.from_tla(ln["case_inputs"])):
@@ -199,7 +207,25 @@ def _typing(ctx, sig, ln, enc, obj, Hugr, Node, InPort, OutPort) -> bool:
                         continue   # Hugr.port_type documents Call outputs only
                     if t is None or not W.same_t(W.proj_type(t), exp[1]):
                         return bad(f"port_type({d},{off}) via {where}", exp[1], None if t is None else W.proj_type(t), "port type = kind payload")
+    # history: the same queries on ONE long-lived Hugr in which the previous term's node was deleted and its index is reused
+    hs = _SHARED_HUGR.setdefault("h", Hugr())
+    hn2 = hs.add_node(obj)
+    try:
+        for off in range(ln["nval_out"]):
+            exp = W.from_tla(ln["kinds_out"][off])
+            if exp[0] != "Value":
+                continue
+            t = hs.port_type(OutPort(hn2, off))
+            k = W.kind_json(hs.port_kind(OutPort(hn2, off)))
+            if t is None or not W.same_t(W.proj_type(t), exp[1]) or k[0] != "Value" or not W.same_t(k[1], exp[1]):
+                return bad(f"port_type / port_kind(out,{off}) on a node that reuses a freed index", exp[1], [None if t is None else W.proj_type(t), k],
+                           "port type = kind payload (after delete_node / add_node)")
+    finally:
+        hs.delete_node(hn2)
     return False
+
+
+_SHARED_HUGR: dict = {}
 
 
 def _cases_of_builder(ctx, sig, ln, o) -> None:
